@@ -48,9 +48,35 @@ type c20Query struct {
 
 const c20Sentinel = "zzsentinel"
 
+// c20Family: queries that differ only in one column / constant — instances of one family send
+// near-identical expression texts to the process-wide bridge caches.
+func c20Family(rng *rand.Rand, fam int, variant int) c20Query {
+	col := []string{"k", "g"}[variant%2]
+	cst := []string{"1", "2", "3"}[variant%3]
+	n := 1 + (fam+variant)%3
+	N := strconv.Itoa(n)
+	switch fam % 6 {
+	case 0:
+		return c20Query{sql: "SELECT id, upper(" + col + ") AS u FROM stream", kind: "expr"}
+	case 1:
+		return c20Query{sql: "SELECT id, v + " + cst + " AS w FROM stream", kind: "expr"}
+	case 2:
+		return c20Query{sql: "SELECT id, concat(" + col + ", 'x') AS cx FROM stream WHERE v >= " + cst, kind: "expr"}
+	case 3:
+		return c20Query{sql: "SELECT upper(" + col + ") AS u, count(*) AS c FROM stream GROUP BY upper(" + col + "), CountingWindow(" + N + ")", kind: "groupfn", window: n, group: []string{"upper(" + col + ")"}}
+	case 4:
+		return c20Query{sql: "SELECT lower(" + col + ") AS l, sum(v) AS s FROM stream GROUP BY lower(" + col + "), CountingWindow(" + N + ")", kind: "groupfn", window: n, group: []string{"lower(" + col + ")"}}
+	default:
+		return c20Query{sql: "SELECT id, lag(v) AS p, upper(" + col + ") AS u FROM stream", kind: "analytic-select", analytic: []string{"p"}}
+	}
+}
+
 func c20Queries(rng *rand.Rand) c20Query {
 	n := 1 + rng.Intn(3)
 	N := strconv.Itoa(n)
+	if rng.Intn(4) == 0 {
+		return c20Family(rng, rng.Intn(6), rng.Intn(6))
+	}
 	pool := []c20Query{
 		{sql: "SELECT id, lag(v) AS p FROM stream", kind: "analytic-select", analytic: []string{"p"}},
 		{sql: "SELECT id, v - lag(v) AS d FROM stream", kind: "analytic-select", analytic: []string{"d"}},
@@ -142,7 +168,7 @@ func c20Template(rng *rand.Rand) map[string]interface{} {
 
 // c20Row: the columns the query pool reads (id, v, k, dev) plus random nested baggage.
 func c20Row(rng *rand.Rand, id int) map[string]interface{} {
-	row := map[string]interface{}{"id": id, "v": rng.Intn(40), "k": c20Keys[rng.Intn(len(c20Keys))], "dev": c20Devs[rng.Intn(len(c20Devs))]}
+	row := map[string]interface{}{"id": id, "v": rng.Intn(40), "k": c20Keys[rng.Intn(len(c20Keys))], "g": c20Keys[rng.Intn(len(c20Keys))], "dev": c20Devs[rng.Intn(len(c20Devs))]}
 	switch rng.Intn(8) {
 	case 0:
 		row["v"] = nil
@@ -184,9 +210,14 @@ func (c20) Gen(rng *rand.Rand, tier string, idx int) Case {
 	var c Case
 	qa := c20Queries(rng)
 	qb := c20Queries(rng)
-	if rng.Intn(4) == 0 {
+	if k := rng.Intn(8); k < 2 {
 		qb = qa // same SQL in both instances
 		c.Stat = append(c.Stat, "pair-same-sql")
+	} else if k < 5 { // two members of one family: near-identical expression texts
+		fam := rng.Intn(6)
+		v := rng.Intn(6)
+		qa, qb = c20Family(rng, fam, v), c20Family(rng, fam, v+1+rng.Intn(2))
+		c.Stat = append(c.Stat, "pair-sibling-sql")
 	} else {
 		c.Stat = append(c.Stat, "pair-different-sql")
 	}
@@ -320,13 +351,13 @@ func (in *c20Inst) quiesce(want int, emitted int) bool {
 	if len(in.q.group) == 0 {
 		pad := (in.q.window - emitted%in.q.window) % in.q.window
 		for i := 0; i < pad; i++ {
-			in.s.Emit(map[string]interface{}{"id": -1, "v": 0, "k": c20Sentinel, "dev": c20Sentinel})
+			in.s.Emit(map[string]interface{}{"id": -1, "v": 0, "k": c20Sentinel, "g": c20Sentinel, "dev": c20Sentinel})
 		}
 		n := (emitted + pad) / in.q.window
 		return c20WaitFor(func() bool { return in.nBatches() >= n })
 	}
 	for i := 0; i < in.q.window; i++ {
-		in.s.Emit(map[string]interface{}{"id": -1, "v": 0, "k": c20Sentinel, "dev": c20Sentinel})
+		in.s.Emit(map[string]interface{}{"id": -1, "v": 0, "k": c20Sentinel, "g": c20Sentinel, "dev": c20Sentinel})
 	}
 	return c20WaitFor(in.sawSentinel)
 }
